@@ -67,3 +67,14 @@ claim('C27', 'declaration-table scan of lib/pystd/**/*.d.er against dir(module) 
       'Decides the property as stated, exhaustively over every top-level declaration of every bundled declaration file (30 misspelt / wrongly mapped names are known findings).',
       'Trusts the frozen dir() tables in ref/ (re-dumped live in the thorough tier) and the typeshed copy shipped in the tooling venv; nested class members are not checked.',
       'DESIGN.md §3 C27')
+
+claim('C01', 'integer-cast audit of the marshalling writers + structural rule on the constant-pool predicate',
+      'Decides the clause "holds for every literal value, including naturals of 2**31 and above and signed zeros": constant marshalling is width-preserving and the '
+      'constant pool never merges float constants by IEEE equality.',
+      'The semantics of emitted operators, loops and functions are run-time facts and are not decided. Cast types come from rustc typeck.',
+      'DESIGN.md §3 C01')
+claim('C15', 'writer/reader sibling cross-check (ordered field, version, encoding lists), marshal type-code table, reader panic audit',
+      'Decides: code-object layout agreement between CodeObj::into_bytes and from_bytes per version, fast-local kind agreement, DataTypePrefix == marshal.c codes, '
+      'no lossy width in the writers, and lists every panicking operation of the reader on input-derived data (12 known findings: the reader is not total).',
+      'Value equality after marshal.loads of strings/tuples is not decided. The marshal code table is frozen and cross-checked against marshal.dumps in the thorough tier.',
+      'DESIGN.md §3 C15')
